@@ -287,7 +287,7 @@ Proof.
 Qed.
 
 (* ------------------------------------------------------------------ the regenerated kernel against Spec.shift *)
-Lemma shift_entry_spec w d v : (w = 4 \/ w = 8) -> v < 256 ^ w -> (- 2 ^ 31 < d < 2 ^ 31)%Z ->
+Lemma shift_entry_spec w d v : (w = 4 \/ w = 8) -> v < 256 ^ w -> (- 2 ^ 31 <= d < 2 ^ 31)%Z ->
   fw (shift_entry 32 d) (shift_entry 64 d) w v =
   match shift w d v with Some v' => Ok v' | None => EParse InvalidInput end.
 Proof.
@@ -315,7 +315,7 @@ Proof.
     change (256 ^ 8) with 18446744073709551616. lia.
 Qed.
 
-Lemma map_res_shift w d : (w = 4 \/ w = 8) -> (- 2 ^ 31 < d < 2 ^ 31)%Z ->
+Lemma map_res_shift w d : (w = 4 \/ w = 8) -> (- 2 ^ 31 <= d < 2 ^ 31)%Z ->
   forall l, Forall (fun v => v < 256 ^ w) l ->
   map_res (fw (shift_entry 32 d) (shift_entry 64 d) w) l =
   match all_some (map (shift w d) l) with Some vs => Ok vs | None => EParse InvalidInput end.
@@ -341,7 +341,7 @@ Qed.
 Definition facts (T : tabinfo) : Prop := (tw T = 4 \/ tw T = 8) /\ tc T < 4294967296 /\ blen (te T) = tw T * tc T.
 Definition tab_of (T : tabinfo) : N * list N := (tw T, vals (tw T) (tc T) (te T)).
 
-Lemma shift_tab_spec d T : facts T -> (- 2 ^ 31 < d < 2 ^ 31)%Z ->
+Lemma shift_tab_spec d T : facts T -> (- 2 ^ 31 <= d < 2 ^ 31)%Z ->
   match shift_table_spec d (tab_of T) with
   | Some t' => exists T', shift_tab (shift_entry 32 d) (shift_entry 64 d) T = Ok T' /\ facts T' /\ tab_of T' = t'
   | None => shift_tab (shift_entry 32 d) (shift_entry 64 d) T = EParse InvalidInput
@@ -367,7 +367,7 @@ Qed.
 (* ------------------------------------------------------------------ all tables *)
 Definition tabs_of (l : list titem) : list (N * list N) := map (fun i => tab_of (ti i)) l.
 
-Lemma shift_items_spec d l : Forall (fun i => facts (ti i)) l -> (- 2 ^ 31 < d < 2 ^ 31)%Z ->
+Lemma shift_items_spec d l : Forall (fun i => facts (ti i)) l -> (- 2 ^ 31 <= d < 2 ^ 31)%Z ->
   match shift_all d (tabs_of l) with
   | Some ts' => exists l', shift_items (shift_entry 32 d) (shift_entry 64 d) l = Ok l' /\ tabs_of l' = ts'
   | None => shift_items (shift_entry 32 d) (shift_entry 64 d) l = EParse InvalidInput
